@@ -400,6 +400,79 @@ def run(ck, facts):
     if nloops < 8:
         ck.bad("R4", "loops-floor", "only %d backend loops over all_types/all_traits found (8 counted)" % nloops)
 
+    # in the backends that render renamed names every name formatter that applies `attrs.rename` applies it on EVERY path (an explicitly given accessor /
+    # constructor name is renamed like the Rust name; only operator names, selected by `special_method`, are fixed spellings)
+    def is_rename_apply(x):
+        return x.get("k") == "mcall" and x.get("m") == "apply" and any(y.get("k") == "field" and y.get("n") == "rename" for y in C.walk(x["recv"]))
+
+    def paths(n, a):
+        """(fall-through states, return states): was rename applied when control leaves n?"""
+        if not isinstance(n, dict):
+            return {a}, set()
+        k = n.get("k")
+        if k == "closure":
+            return {a}, set()
+        if k == "macro" and n.get("name") in C.HARD_PANIC_MACROS:
+            return set(), set()
+        if k == "ret":
+            f_, r_ = paths(n.get("e"), a)
+            return set(), r_ | f_
+        if k == "if":
+            fc, rc = paths(n["c"], a)
+            falls, rets = set(), set(rc)
+            for a2 in fc:
+                for br in (n["t"], n.get("e")):
+                    if br is None:
+                        falls.add(a2)
+                        continue
+                    f_, r_ = paths(br, a2)
+                    falls |= f_
+                    rets |= r_
+            return falls, rets
+        if k == "match":
+            fs, rs = paths(n["s"], a)
+            exempt = any(y.get("k") == "field" and y.get("n") == "special_method" for y in C.walk(n["s"]))
+            falls, rets = set(), set(rs)
+            for a2 in fs:
+                for arm in n["arms"]:
+                    f_, r_ = paths(arm["b"], a2)
+                    if exempt and not any(is_rename_apply(y) for y in C.walk(arm["b"])):
+                        f_, r_ = ({True} if f_ else set()), ({True} if r_ else set())
+                    falls |= f_
+                    rets |= r_
+            return falls, rets
+        kids = list(C.children(n))
+        if k == "block":
+            kids = list(n.get("s") or []) + ([n["e"]] if n.get("e") is not None else [])
+        states, rets = {a}, set()
+        for c_ in kids:
+            nxt = set()
+            for a2 in states:
+                f_, r_ = paths(c_, a2)
+                nxt |= f_
+                rets |= r_
+            states = nxt
+            if not states:
+                break
+        if is_rename_apply(n) and states:
+            states = {True}
+        if k in ("for", "while", "loop"):
+            states |= {a}
+        return states, rets
+    nfmt = 0
+    for f in tool.fn_list:
+        if "hir" not in f or f.get("dk") == "Closure" or not re.match(r"^diplomat_tool::(cpp|js|dart|nanobind)::formatter::", C.norm_path(f["path"])):
+            continue
+        if not any(is_rename_apply(x) for x in C.walk(C.fn_body(f))):
+            continue
+        nfmt += 1
+        fl_, rt_ = paths(C.fn_body(f), False)
+        ck.expect(False not in (fl_ | rt_), "R4", "%s/rename-on-every-path" % C.norm_path(f["path"]).replace("diplomat_tool::", ""), "applied on every path",
+                  "`%s` applies attrs.rename on some paths only: a name given explicitly (accessor / constructor name) or selected by another test escapes a rename whose condition holds for "
+                  "this backend, while sibling backends render it" % f["name"], C.loc(f))
+    if nfmt < 12:
+        ck.bad("R4", "rename-formatters/floor", "only %d name formatters applying attrs.rename found in cpp/js/dart/nanobind (14 counted)" % nfmt)
+
     # the pure C backend does not render `rename` at all (every C name -- typedefs, file names, references, symbols -- stays the Rust name): each application of
     # attrs.rename in the C formatter sits under `if self.is_for_cpp`
     nren = 0
@@ -516,6 +589,26 @@ def run(ck, facts):
         ck.expect(bool(ctxs) and sel == want_, "R6", "ast::Attrs::attrs_for_inheritance/%s" % fld, str(sel),
                   "the `%s` list of an item is handed down in contexts %s (expected only MethodFromImpl): conditions written on an impl block no longer reach its methods, or module-level "
                   "attribute lists are applied twice" % (fld, sorted(c for c, v in sel.items() if v == "copied")), C.loc(afi))
+
+    # RenameAttr::attrs_for_inheritance(context, is_abi_rename): the flag says which of the two pattern kinds is being handed down -- `rename` stops at
+    # module -> method (a module-level rename names types only), `abi_rename` does not.  Every call passes the flag of the field it is called on.
+    nflag = 0
+    for f_ in core.fn_list:
+        if "hir" not in f_ or f_.get("dk") == "Closure":
+            continue
+        for x in C.walk(C.fn_body(f_)):
+            if x.get("k") == "mcall" and C.norm_path(x.get("p") or "").endswith("RenameAttr::attrs_for_inheritance") and len(x.get("a") or []) == 2:
+                r_ = C.strip(x["recv"])
+                fld_ = r_.get("n") if r_.get("k") == "field" else None
+                flag_ = lit_bool(x["a"][1])
+                if fld_ not in ("rename", "abi_rename"):
+                    continue
+                nflag += 1
+                ck.expect(flag_ is (fld_ == "abi_rename"), "R6", "%s/%s-inherits-as-%s" % (C.norm_path(f_["path"]).replace("diplomat_core::", ""), fld_, fld_), "is_abi_rename = %s" % flag_,
+                          "`%s.attrs_for_inheritance(.., is_abi_rename = %s)`: the %s pattern is handed down with the other kind's rule (a module-level `rename` then also renames every method of "
+                          "the module's types; a module-level `abi_rename` would stop applying to methods)" % (fld_, flag_, fld_), C.loc(f_, x.get("ln")))
+    if nflag < 2:
+        ck.bad("R6", "rename-inheritance-flags/floor", "only %d calls of RenameAttr::attrs_for_inheritance on a rename / abi_rename field found (2 counted)" % nflag)
 
     # type lowerers use ty_parent_attrs for the type, method_parent_attrs for its methods
     for fname in ("lower_enum", "lower_opaque", "lower_struct", "lower_out_struct", "lower_trait"):
